@@ -201,6 +201,7 @@ CATALOGUE = [
     ("C02", "c02-wildcard-row-uncoloured", PL, "                if source_entity and wired:\n", "                if source_entity and edge_key in self.connection_planner._edge_wire_colors:\n", 1, "fire", "C02-R17"),
     ("C04", "c04-cell-output-pinned-red", PL, "                if feedback_signal:\n                    # Whatever else arrives", "                if feedback_signal:\n                    locked[(entity_id, feedback_signal)] = \"red\"\n                    # Whatever else arrives", 1, "fire", "C04-R11"),
     ("C15", "c15-memory-entry-by-name", ML, "        if mem_info is not None and getattr(mem_info.symbol, \"defined_at\", None) is not stmt:\n            # The table keeps one entry per name: this one is another declaration's\n            mem_info = None\n", "", 1, "fire", "C15-R14"),
+    ("C14", "c14-bundle-comparison-as-value", AN, "                self.diagnostics.error(\n                    \"A bundle comparison cannot be used as a value.\\n\"", "                self.diagnostics.info(\n                    \"A bundle comparison cannot be used as a value.\\n\"", 1, "fire", "bare bundle comparison"),
     ("C10", "c10-remainder-sign", "dsl_compiler/src/common/int32.py", "    return left - right * trunc_div(left, right)", "    remainder = abs(left) % abs(right)\n    return -remainder if (left < 0) != (right < 0) else remainder", 1, "fire", "C10-R17"),
     ("C11", "c11-remainder-sign", "dsl_compiler/src/common/int32.py", "    return left - right * trunc_div(left, right)", "    remainder = abs(left) % abs(right)\n    return -remainder if (left < 0) != (right < 0) else remainder", 1, "fire", "witness"),
 ]
